@@ -13,6 +13,10 @@ Structural clauses decided:
  R9 a signature header is charged only when it is not optional
  R10 exact-match relation of every (observed form, signature form) arm of distance_ttl / distance_window_size equals the
      specification table (normal form of the compared expressions)
+ R11 list-valued components (option layout, quirks) are compared as whole lists (no zip / prefix comparison)
+ R12 each scalar / list component is charged exactly under the conditions of the specification table; the software-string match
+     depends on the containment test alone
+ R8  (also) every narrowing conversion in the database crate is proven or reviewed to fit
 """
 from ..engine import cfg as C
 from ..engine import q as Q
